@@ -177,6 +177,16 @@ def new_sequence(rng, used_d, elems, seqs, std, rep_only=()):
     return sid, ('VERIF SEQUENCE %06d' % sid, members), kind
 
 
+def seq_uses(D, s, target, depth=0):
+    """does sequence s (transitively) use sequence target"""
+    if depth > 20:
+        return True
+    for i in D.get(s, []):
+        if i == target or (i >= 300000 and i in D and seq_uses(D, i, target, depth + 1)):
+            return True
+    return False
+
+
 def contains_rep_only(ids, D, rep_only):
     for i in ids:
         if i in rep_only:
@@ -197,6 +207,7 @@ def make_stream(ctx, k):
     expected = []
     stats = dict(defs=0, redefs=0, rep_only=0)
     elems, seqs, rep_only = [], [], set()
+    earlier = []
     ndefs = rng.choice([1, 1, 2, 2, 3])
     for di in range(ndefs):
         b_entries, d_entries = [], []
@@ -214,6 +225,15 @@ def make_stream(ctx, k):
                 eid, ent = new_element(rng, set(B) | set(e for e, _ in b_entries))
                 b_entries.append((eid, ent))
         new_elems = [e for e, _ in b_entries]
+        # a later definition message may give an EXISTING sequence other members
+        plain_seqs = [x for x in seqs if x not in rep_only]
+        if di > 0 and plain_seqs and rng.random() < 0.5:
+            old = rng.choice(plain_seqs)
+            _, ent, kind = new_sequence(rng, set(), elems + new_elems, [x for x in plain_seqs if x != old and not seq_uses(D, x, old)],
+                                        std, ())
+            if kind == 'plain' and list(ent[1]) != D[old]:
+                d_entries.append((old, ('VERIF SEQUENCE %06d' % old, ent[1])))
+                stats['seq_redefs'] = stats.get('seq_redefs', 0) + 1
         for _ in range(0 if redef_only else rng.randint(0, 4)):
             sid, ent, kind = new_sequence(rng, set(D) | set(s for s, _ in d_entries), elems + new_elems,
                                           [s for s in seqs if s not in rep_only], std, rep_only)
@@ -240,7 +260,14 @@ def make_stream(ctx, k):
         for _ in range(rng.randint(1, 3)):
             for attempt in range(8):
                 ids = []
-                for _ in range(rng.randint(2, 6)):
+                reuse = None
+                if earlier and attempt == 0 and rng.random() < 0.45:
+                    # the very descriptor list (and table identification) of an earlier data message, now under the
+                    # definitions in force NOW - anything remembered per descriptor list must not outlive a definition message
+                    reuse = rng.choice(earlier)
+                    ids = list(reuse[0])
+                    stats['reused_descriptor_lists'] = stats.get('reused_descriptor_lists', 0) + 1
+                for _ in range(0 if reuse else rng.randint(2, 6)):
                     rr = rng.random()
                     if rr < 0.4:
                         ids.append(rng.choice(elems))
@@ -272,7 +299,9 @@ def make_stream(ctx, k):
                              update_sequence_number=len(parts) % 256)
                 Bm, Dm = B, D
                 local = None
-                if LOCALS and rng.random() < 0.3:
+                if reuse:
+                    dmeta['master_table_version'] = reuse[1]
+                if LOCALS and rng.random() < 0.3 and not reuse:
                     # the header selects bundled local tables: the in-stream entries must be in force there too
                     ce, su, lv = rng.choice(LOCALS)
                     local = (ce, su, lv)
@@ -316,6 +345,8 @@ def make_stream(ctx, k):
                                     if me and me[0] == 'n' and l[0] == '0' and 48 <= int(l[1:3]) <= 63 and (me[2] < 0 or me[3] < 0))
                 parts.append(msg.bytes)
                 expected.append(msg)
+                if local is None:
+                    earlier.append((list(ids), dmeta['master_table_version']))
                 break
     if not any(e is not None for e in expected):
         return None
@@ -366,6 +397,8 @@ def run(ctx):
                 ctx.count('multi_definition_streams')
             ctx.count('redefinitions', stats['redefs'])
             ctx.count('redefinition_only_messages', stats.get('redef_only', 0))
+            ctx.count('sequence_redefinitions', stats.get('seq_redefs', 0))
+            ctx.count('reused_descriptor_lists', stats.get('reused_descriptor_lists', 0))
             multi = 'multi-def' if stats['defs'] > 1 else 'single-def'
             if out.get('error'):
                 ctx.evaluated(stream.hex(), True)
